@@ -238,9 +238,9 @@ impl Machine {
                 None => enabled.push((e.head(), e.tail())),
                 Some(c) => match self.eval(c) {
                     Ok(v) => {
-                        if v.bits != 1 {
-                            first_fault.get_or_insert(Fault::Sort);
-                        } else if v.is_one() {
+                        // an edge is taken when its guard evaluates to one (whatever the guard's width: a wider
+                        // guard with another non-zero value does not hold)
+                        if v.is_one() {
                             enabled.push((e.head(), e.tail()));
                         }
                     }
